@@ -38,11 +38,12 @@ struct ProblemSpec {
     double Rmax = 1.3;
     double p1 = 0.0, p2 = 0.0; // Shafranov: kappa, delta; Czarny: epsilon, e
     double alpha_jump = 0.0;
+    bool mirror = false; // orientation-reversing variant (x -> -x) of the mapping: det DF < 0, same metric, same operator
     std::string name() const { return std::string(prob_name(prob)) + "_" + prof_name(prof) + "_" + geom_name(geom); }
     void describe(JObj& o) const
     {
         o.str("geometry", geom_name(geom)).str("problem", prob_name(prob)).str("profile", prof_name(prof));
-        o.num("Rmax", Rmax).num("geom_p1", p1).num("geom_p2", p2).num("alpha_jump", alpha_jump);
+        o.num("Rmax", Rmax).num("geom_p1", p1).num("geom_p2", p2).num("alpha_jump", alpha_jump).b("mirrored", mirror);
     }
 };
 
@@ -59,7 +60,31 @@ inline double documented_alpha_jump(int prof, double Rmax)
     }
 }
 
+// A user-defined geometry: the mirror image of a shipped mapping. The library takes |det DF| everywhere, so an
+// orientation-reversing mapping is legal input and yields the same metric coefficients, hence the same operator.
+class MirroredGeometry : public DomainGeometry
+{
+public:
+    explicit MirroredGeometry(std::unique_ptr<DomainGeometry> inner) : g_(std::move(inner)) {}
+    double Fx(const double& r, const double& t, const double& s, const double& c) const override { return -g_->Fx(r, t, s, c); }
+    double Fy(const double& r, const double& t, const double& s, const double& c) const override { return g_->Fy(r, t, s, c); }
+    double dFx_dr(const double& r, const double& t, const double& s, const double& c) const override { return -g_->dFx_dr(r, t, s, c); }
+    double dFy_dr(const double& r, const double& t, const double& s, const double& c) const override { return g_->dFy_dr(r, t, s, c); }
+    double dFx_dt(const double& r, const double& t, const double& s, const double& c) const override { return -g_->dFx_dt(r, t, s, c); }
+    double dFy_dt(const double& r, const double& t, const double& s, const double& c) const override { return g_->dFy_dt(r, t, s, c); }
+
+private:
+    std::unique_ptr<DomainGeometry> g_;
+};
+
+inline std::unique_ptr<DomainGeometry> make_geometry_plain(const ProblemSpec& s);
 inline std::unique_ptr<DomainGeometry> make_geometry(const ProblemSpec& s)
+{
+    if (s.mirror)
+        return std::make_unique<MirroredGeometry>(make_geometry_plain(s));
+    return make_geometry_plain(s);
+}
+inline std::unique_ptr<DomainGeometry> make_geometry_plain(const ProblemSpec& s)
 {
     switch (s.geom) {
     case G_CIRCULAR: return std::make_unique<CircularGeometry>(s.Rmax);
